@@ -118,6 +118,10 @@ def random_plan(rng: random.Random, job: str, variant: int, n: int, with_console
                 [op("CAST", s1), console(rng.choice(CONSOLE_TEXTS)), op("ELAPSE", time=0.0), op("RESOLVE", s1)],
                 [op("USE", s1), op("RESOLVE", rng.choice(names)), op("RESOLVE", s1)],
                 [console(rng.choice(CONSOLE_TEXTS)), op("USE", s1), op("KEYDOWNSTOP", s1), op("RESOLVE", s1)],
+                # a skill used again at once (its follow-up reaction stays pending and may be refused on cooldown), then
+                # ANOTHER skill cast: the cast's play carries events of other components
+                [op("CAST", s1), op("USE", s1), op("CAST", rng.choice(valid))],
+                [op("USE", s1), op("USE", s1), op("CAST", rng.choice(valid)), op("RESOLVE", s1)],
             ])
             if rng.random() < 0.4:
                 # `xN <op>` in a plan text: the parser returns THE SAME Operation object N times (a key-down skill
@@ -173,6 +177,40 @@ def random_plan(rng: random.Random, job: str, variant: int, n: int, with_console
         cmds.append(c)
         eng.exec(c)
     return cmds[:n]
+
+
+def refused_commands() -> list:
+    """commands the engine REFUSES with an exception (on the unchanged tree without any effect: no log, no clock
+    change, the pending events stay): a caller that catches the error -- a plan editor -- goes on with the session"""
+    return [Operation(command="ELAPSE", name="soon", time=None, expr='ELAPSE "soon"'),
+            Operation(command="FOO", name="x", time=None, expr='FOO "x"'),
+            console("1/0"), console("viewer('no such view')")]
+
+
+def with_refused(rng: random.Random, cmds: list, k: int = 3) -> list:
+    """the plan with up to k refused commands inserted: at the very start (the first dispatch of a kind in the engine's
+    life), right after a USE / CAST (callbacks pending) and anywhere"""
+    out = list(cmds)
+    pool = refused_commands()
+    after_use = [i + 1 for i, c in enumerate(out) if getattr(c, "command", "") in ("USE", "CAST")]
+    for j in range(rng.randint(1, k)):
+        r = rng.random()
+        pos = 0 if (j == 0 and r < 0.4) else rng.choice(after_use) if (after_use and r < 0.8) else rng.randint(0, len(out))
+        out.insert(pos, pool[0] if (pos == 0 or rng.random() < 0.5) else rng.choice(pool))
+        after_use = [i + 1 for i, c in enumerate(out) if getattr(c, "command", "") in ("USE", "CAST")]
+    return out
+
+
+def is_refused(c) -> bool:
+    return any(command_text(c) == command_text(r) for r in refused_commands())
+
+
+def exec_safe(eng, c):
+    """exec; None if the engine refuses the command with an exception"""
+    try:
+        return eng.exec(c)
+    except Exception:  # noqa: BLE001 -- a refused command; what it left behind is what the checks look at
+        return None
 
 
 def safe_view(eng, name: str, default):
